@@ -68,6 +68,41 @@ func (tds *Conn) VerifErrCh() chan error {
 	return tds.errCh
 }
 
+// VerifNewChannel registers and returns a channel with the passed id
+// without performing the setup handshake for logical channels.
+func (tds *Conn) VerifNewChannel(channelId int) *Channel {
+	tdsChan := &Channel{
+		tdsConn:            tds,
+		channelId:          channelId,
+		envChangeHooks:     []EnvChangeHook{},
+		envChangeHooksLock: &sync.Mutex{},
+		eedHooks:           []EEDHook{},
+		eedHooksLock:       &sync.Mutex{},
+		CurrentHeaderType:  TDS_BUF_NORMAL,
+		window:             0,
+		queueRx:            NewPacketQueue(tds.PacketSize),
+		queueTx:            NewPacketQueue(tds.PacketSize),
+		packageCh:          make(chan Package, tds.info.ChannelPackageQueueSize),
+		errCh:              make(chan error, 10),
+	}
+
+	tds.tdsChannelsLock.Lock()
+	tds.tdsChannels[channelId] = tdsChan
+	tds.tdsChannelsLock.Unlock()
+
+	return tdsChan
+}
+
+// VerifSetPacketNr sets the number of the next outgoing packet.
+func (tdsChan *Channel) VerifSetPacketNr(nr int) {
+	tdsChan.curPacketNr = nr
+}
+
+// VerifPacketNr returns the number of the next outgoing packet.
+func (tdsChan *Channel) VerifPacketNr() int {
+	return tdsChan.curPacketNr
+}
+
 // VerifChannelId returns the id of the channel.
 func (tdsChan *Channel) VerifChannelId() int {
 	return tdsChan.channelId
